@@ -7,6 +7,7 @@ import CookModel.Lemmas.StdMetaCoupling
 import CookModel.Lemmas.StdMetaMap
 import CookModel.Side.StdMetaBuilt
 import CookModel.Lemmas.BuilderSound
+import CookModel.Lemmas.StdMetaAttached
 /-
   C13  Standard metadata values are interpreted as documented.
 
@@ -384,5 +385,93 @@ example : parseTime bundledView ['9', '0', ' ', 's', 'e', 'c'] = some 2 := by de
 example : parseTime bundledView ['1', '.', '5', 'h', ' ', '2', '0', ' ', 'm', 'i', 'n'] = some 110 := by decide +kernel
 example : (parseTimeWithUnits bundledView ['5', ' ', 'm'], parseTimeWithUnits (α := Rat) emptyConv ['5', ' ', 'm']) = (none, some 5) := by
   decide +kernel
+
+/-! ### Added by wave 4: renamed-units converters, attached forms (notes/audit-C13.md row 8', "Left open") -/
+
+/-- Converter independence for texts that mix spaced (`90 min`) and ATTACHED (`90min`, `1.5h`) pieces.  A piece is a
+    number part of ASCII digits and `.` followed by a unit, either as the next word or attached; an attached unit must
+    start with a character that is neither a digit nor `.` in BOTH spellings (`StartsUnit u`, `StartsUnit (ρ u)`), because
+    `parse_time_with_units` cuts the word at the first such character (a renamed unit starting with a digit would move
+    the cut; such a renaming is outside the statement).  Then the text written with the renamed unit names reads, under
+    a converter that renames the hard-coded units (`Renames c ρ`), as the original text reads under the empty
+    converter.  `C13_converter_independence_text` is the special case without attached pieces. -/
+theorem C13_converter_independence_attached (c : Conv Rat) (ρ : Str → Str) (h : Renames c ρ) (s s' : Str)
+    (ts : List TimeTok) (hok : ∀ t ∈ ts, t.Ok ρ)
+    (hw : words s = ts.flatMap (TimeTok.words ρ)) (hw' : words s' = ts.flatMap (TimeTok.words id)) :
+    parseTimeWithUnits c s = parseTimeWithUnits emptyConv s' := by
+  unfold parseTimeWithUnits
+  rw [hw, hw', sma_pairLoop_renamed c ρ h ts hok]
+
+namespace C13Examples
+
+/-- a converter with German time units: `min` (the minute, ratio 60 — seconds are the base), `sek`, `std`, `tag` -/
+def german : Conv Rat :=
+  { units := [⟨true, 60, 0⟩, ⟨true, 1, 0⟩, ⟨true, 3600, 0⟩, ⟨true, 86400, 0⟩],
+    index := fun k => if k = ['m','i','n'] then some 0 else if k = ['s','e','k'] then some 1
+                      else if k = ['s','t','d'] then some 2 else if k = ['t','a','g'] then some 3 else none }
+
+/-- the renaming: every hard-coded spelling goes to the German unit of the same size; other names to names the
+    converter does not know -/
+def germanOfSize (f : Rat) : Str :=
+  if f = 1 / 60 then ['s','e','k'] else if f = 1 then ['m','i','n'] else if f = 60 then ['s','t','d'] else ['t','a','g']
+
+def germanNames (u : Str) : Str :=
+  match Spec.hardFactor u with
+  | some f => germanOfSize f
+  | none => '?' :: u
+
+theorem hardFactor_values (u : Str) (f : Rat) (h : Spec.hardFactor u = some f) : f = 1 / 60 ∨ f = 1 ∨ f = 60 ∨ f = 1440 := by
+  unfold Spec.hardFactor at h
+  split at h
+  · cases h; exact Or.inl rfl
+  · split at h
+    · cases h; exact Or.inr (Or.inl rfl)
+    · split at h
+      · cases h; exact Or.inr (Or.inr (Or.inl rfl))
+      · split at h
+        · cases h; exact Or.inr (Or.inr (Or.inr rfl))
+        · cases h
+
+/-- `Renames` is satisfiable: the hypothesis of the four converter-independence theorems holds of `german` -/
+theorem german_renames : Renames german germanNames where
+  nonempty := by simp [german]
+  ratios := by
+    intro u hu _
+    simp only [german, List.mem_cons, List.not_mem_nil, or_false] at hu
+    rcases hu with rfl | rfl | rfl | rfl <;> decide
+  minute := ⟨(0, ⟨true, 60, 0⟩), rfl, rfl, rfl⟩
+  known := by
+    intro u f hf m hm
+    have hm0 : Spec.minuteUnit german = some (0, ⟨true, 60, 0⟩) := rfl
+    rw [hm0] at hm; cases hm
+    unfold germanNames
+    rw [hf]
+    simp only
+    rcases hardFactor_values u f hf with rfl | rfl | rfl | rfl
+    · rw [show germanOfSize (1 / 60) = ['s','e','k'] by decide +kernel]
+      exact ⟨(1, ⟨true, 1, 0⟩), rfl, rfl, rfl, by decide +kernel⟩
+    · rw [show germanOfSize 1 = ['m','i','n'] by decide +kernel]
+      exact ⟨(0, ⟨true, 60, 0⟩), rfl, rfl, rfl, by decide +kernel⟩
+    · rw [show germanOfSize 60 = ['s','t','d'] by decide +kernel]
+      exact ⟨(2, ⟨true, 3600, 0⟩), rfl, rfl, rfl, by decide +kernel⟩
+    · rw [show germanOfSize 1440 = ['t','a','g'] by decide +kernel]
+      exact ⟨(3, ⟨true, 86400, 0⟩), rfl, rfl, rfl, by decide +kernel⟩
+  unknown := by
+    intro u hf un hun
+    unfold germanNames at hun
+    rw [hf] at hun
+    simp [Conv.find, german] at hun
+
+-- `1.5h 20 min` written `1.5std 20 min`: both pieces satisfy `TimeTok.Ok`, and both texts read 110 minutes
+example : ∀ t ∈ [TimeTok.attached ['1','.','5'] ['h'], TimeTok.spaced ['2','0'] ['m','i','n']], t.Ok germanNames := by
+  intro t ht
+  simp only [List.mem_cons, List.not_mem_nil, or_false] at ht
+  rcases ht with rfl | rfl
+  · exact ⟨by decide, ⟨'h', [], rfl, by decide⟩, ⟨'s', ['t','d'], by decide +kernel, by decide⟩⟩
+  · show List.all _ _ = true; decide
+example : parseTimeWithUnits german ['1','.','5','s','t','d',' ','2','0',' ','m','i','n'] = some 110 ∧
+    parseTimeWithUnits emptyConv ['1','.','5','h',' ','2','0',' ','m','i','n'] = some 110 := by decide +kernel
+
+end C13Examples
 
 end Cook
